@@ -94,6 +94,13 @@ class Buffer:
                     return message, end
                 except Exception:
                     logger.warning("Buffer: Contents is not a valid message")
+                    # A complete element that is not a valid message will
+                    # never become one: skip it, otherwise it blocks every
+                    # message behind it until the junk threshold is exceeded.
+                    self.data = data[end:]
+                    self._cleanup_buffer()
+                    data = self.data
+                    end = 0
         return None, None
 
     def process(self, callback: Callable[[IndiMessage], None]):
